@@ -17,7 +17,7 @@ func init() {
 			for _, k := range []int{1, 2, 8, 24} {
 				r = append(r, Oblig{Harness: "vh_C03_repr_other", Globals: map[string]int{"vhKind": k}})
 			}
-			for op := 0; op <= 6; op++ {
+			for op := 0; op <= 7; op++ {
 				r = append(r, Oblig{Harness: "vh_C03_fold", Globals: map[string]int{"vhOp": op}})
 			}
 			for op := 0; op <= 3; op++ {
@@ -28,7 +28,7 @@ func init() {
 			}
 			// typed folding: every integer kind x every operator
 			for _, k := range intKinds {
-				for op := 0; op <= 11; op++ {
+				for op := 0; op <= 12; op++ {
 					r = append(r, Oblig{Harness: "vh_C03_fold_typed", Globals: map[string]int{"vhKind": k, "vhOp": op}, Unroll: 80, MaxPaths: 2000})
 				}
 			}
